@@ -10,7 +10,8 @@ user-level write path only ever *appends whole frames* to the data files of the 
 
 * `FExt b b'`   — the bytes `b'` are `b` followed by a run of appended (non-empty) records;
 * `DExt fs fs'` — every file of `fs` is still there in `fs'`, extended in that sense;
-* `Top fs a`    — no file has an id above the active id `a` (so a rotation creates a *new* file);
+* `Top fs a`    — file ids ascend and none lies above the active id `a` (so a rotation creates a
+  *new* file);
 * `Adv s db s' db'` — the step relation: same directory, `Top` is kept and the files are extended;
 * `Step s s'`   — the same on states with an open handle.
 
@@ -64,8 +65,8 @@ theorem DExt.trans {a b c : List (Nat × FileSt)} (h : DExt a b) (h' : DExt b c)
   obtain ⟨f2, h2, e2⟩ := h' id f1 h1
   exact ⟨f2, h2, e1.trans e2⟩
 
-/-- no file above the active id -/
-def Top (fs : List (Nat × FileSt)) (a : Nat) : Prop := ∀ id, a < id → getFile fs id = none
+/-- file ids strictly ascending, no file above the active id -/
+def Top (fs : List (Nat × FileSt)) (a : Nat) : Prop := AscF fs ∧ ∀ id, a < id → getFile fs id = none
 
 theorem filesOf_congr {s s' : St} {db db' : DB} (hw : s'.world = s.world) (hd : db'.dir = db.dir) :
     filesOf s' db' = filesOf s db := by
@@ -118,10 +119,10 @@ theorem Adv_putActive (s : St) (db : DB) (f' : FileSt) {db' : DB} (hd : db'.dir 
     Adv s db (putFile s db db.activeId f') db' := by
   refine ⟨hd, fun ht => ?_⟩
   rw [filesOf_putFile s db _ _ hd, ha]
-  refine ⟨?_, ?_⟩
+  refine ⟨⟨AscF_setFile ht.1 _ _, ?_⟩, ?_⟩
   · intro id hid
     rw [getFile_setFile, if_neg (by omega)]
-    exact ht id hid
+    exact ht.2 id hid
   · intro id f hf
     rw [getFile_setFile]
     by_cases e : id = db.activeId
@@ -147,15 +148,15 @@ theorem Adv_rotate (s : St) (db : DB) : Adv s db (rotate s db).1 (rotate s db).2
     rw [filesOf_putFile _ _ _ _ rfl, h1]
   have hact : (rotate s db).2.activeId = db.activeId + 1 := rfl
   rw [hfs, hact]
-  refine ⟨?_, ?_⟩
+  refine ⟨⟨AscF_setFile (AscF_setFile ht.1 _ _) _ _, ?_⟩, ?_⟩
   · intro id hid
     rw [getFile_setFile, if_neg (by omega), getFile_setFile, if_neg (by omega)]
-    exact ht id (by omega)
+    exact ht.2 id (by omega)
   · intro id f hf
     have hle : id ≤ db.activeId := by
       apply Nat.le_of_not_lt
       intro hlt
-      rw [ht id hlt] at hf
+      rw [ht.2 id hlt] at hf
       cases hf
     rw [getFile_setFile, if_neg (by omega), getFile_setFile]
     by_cases e : id = db.activeId
@@ -384,6 +385,7 @@ theorem Step_arun (ops : List AOp) : ∀ s : St, Step s (arun s ops) := by
 theorem Top_of_Files {s : St} {db : DB} {g : GDir} (h : Files s db g) : Top (filesOf s db) db.activeId := by
   obtain ⟨d, hd, _, hm⟩ := h.dir
   obtain ⟨g0, gf, hg, hlt⟩ := h.last
+  refine ⟨by unfold filesOf; rw [dirOf_eq hd]; exact Matches_AscF hm h.asc, ?_⟩
   intro id hid
   cases hf : getFile (filesOf s db) id with
   | none => rfl
